@@ -83,9 +83,9 @@ claim("C13", "DESIGN.md 5 C13",
       "(functions documented 'called locked' require it; public ones are proved to take and release the lock; double Lock and Unlock of an unheld mutex are obligations too). "
       "unbounded.Channel Put/Get: Put appends exactly v at the end and changes nothing else, Get returns the whole queue and leaves it empty (exactly once, in order, linearised).",
       "Two lock-ORDER rules are call-site obligations: group.kickall issues every Kick with the group's mutex released and never from under Group.Range (Shutdown deadlocked with a recorder or WHIP publisher in a group: repaired); "
-      "rtpconn.WhipClient.Close never calls into the group with the client's own mutex held (the group calls Permissions() with its mutex held: deadlock, repaired), and WhipClient.NewConnection creates its connection (newUpConn calls into the group) before taking that mutex. group.GetDescription reads the description under the group's mutex (data race: repaired). "
+      "rtpconn.WhipClient.Close never calls into the group with the client's own mutex held (the group calls Permissions() with its mutex held: deadlock, repaired), and WhipClient.NewConnection creates its connection (newUpConn calls into the group) before taking that mutex. WhipClient.group and WhipClient.connection are declared guarded by the client's mutex: every read and write in Group, RequestConns, Close, NewConnection is proved to hold it (Group and RequestConns read the group pointer unlocked: data race with Close, repaired). group.GetDescription reads the description under the group's mutex (data race: repaired). "
       "PARTIAL. Under contract: Name, Locked, SetLocked, Data, UpdateData, Description, ClientCount, mayExpire, Get, Delete, deleteUnlocked, Range (both), AddClient, DelClient, autoLockKick, GetClients, getClientsUnlocked, GetClient, getClientUnlocked, UserExists, chat history functions, Channel.Put/Get. "
-      "Not yet under contract (accessors of guarded state outside the claim): add, Shutdown, WallOps, Status, GetPublic, Update, WhipClient, diskwriter.Client, stats. "
+      "Not yet under contract (accessors of guarded state outside the claim): Shutdown, WallOps, GetPublic, Update, the other WhipClient methods (GotOffer, UFragPwd, Restart, GotICECandidate), diskwriter.Client, stats; webClient.group (written by the client's goroutine, read by pion callbacks) is not declared guarded. "
       "Not decided: lock-ORDER deadlock freedom (level ghosts not built: WhipClient.Close vs AddClient and kickall re-entering the group are NOT checked), lost wakeups, starvation, leaks. Callbacks passed to Range are assumed not to touch the lock.")
 
 claim("C15", "DESIGN.md 5 C15",
